@@ -493,7 +493,14 @@ def collect():
                     rec_enum.append(key)
                 else:
                     rec_other.append(key)
+    zone_playback = []
+    for recname, lines in recordings().items():
+        for kind, text in lines:
+            m = LINE_RE.match(text)
+            if m and m.group(1) in server["zones"] and m.group(2) == "PLAYBACK":
+                zone_playback.append((recname, m.group(1)))
     return {
+        "rec_zone_playback": sorted(set(zone_playback)),
         "enums": enums,
         "classes": classes,
         "consts": consts,
@@ -570,6 +577,8 @@ def emit(T) -> dict:
     body += "def recEnum : List (String × String × String × String) :=\n  " + llist((f"({lstr(a)}, {lstr(b)}, {lstr(c)}, {lstr(d)})" for a, b, c, d in T["rec_enum"]), True) + "\n\n"
     body += "/-- (recording, subunit, function, value) where value is a plain decimal literal and the function numeric -/\n"
     body += "def recNum : List (String × String × String × String) :=\n  " + llist((f"({lstr(a)}, {lstr(b)}, {lstr(c)}, {lstr(d)})" for a, b, c, d in T["rec_num"]), True) + "\n\n"
+    body += "/-- (recording, zone) pairs for which the recording contains any `@<zone>:PLAYBACK=` line (the server's PLAYBACK coupling indexes a list by the zone's input) -/\n"
+    body += "def recZonePlayback : List (String × String) := " + llist(f"({lstr(a)}, {lstr(b)})" for a, b in T["rec_zone_playback"]) + "\n\n"
     body += "/-- recorded values of numeric functions that are not numeric literals (C10's business; listed, not hidden) -/\n"
     body += "def recNonLiteral : List (String × String × String × String) :=\n  " + llist((f"({lstr(a)}, {lstr(b)}, {lstr(c)}, {lstr(d)})" for a, b, c, d in T["rec_other"]), True) + "\n\nend Ynca.Gen\n"
     changed["Recordings"] = write_if_changed(os.path.join(GEN_DIR, "Recordings.lean"), body)
